@@ -13,6 +13,7 @@ Property C18 — determinism and isolation.
 -/
 import LolHtml.Gen.Globals
 import LolHtml.Lemmas.CApi
+import LolHtml.Model.CApiMiniR
 
 namespace LolHtml.Thm.C18
 open LolHtml.Model.CApi
@@ -65,6 +66,15 @@ theorem C18_take_latest (pol : Policy) (prog : Prog) (cs : List (Call R.Chunk))
   · simp [takeLastError, hm, alloc, Env.setVar, Env.out]
   · simp [takeLastError, hm, alloc, Env.setVar, Env.out]
   · intro t' ht'; simp [takeLastError, hm, alloc, Env.setVar, Env.out, ht']
+
+open LolHtml.Model.CApi.Mini in
+/-- Non-vacuity: thread 0 fails to parse a selector; thread 1 sees no error; thread 0 then takes its own. -/
+example :
+    (match run .header (fun _ => ⟨[], none, 0⟩) (Env.init MiniR)
+        [⟨0, .selectorParse 1 [0x61, 0x5b]⟩, ⟨1, .takeLastError 2⟩, ⟨0, .takeLastError 3⟩] with
+      | .ok e => e.log == [.taken (some (.rust [0x73])), .taken none, .ptr true]
+      | _ => false) = true := by
+  decide +kernel
 
 /-- A run is a function of its inputs: there is no other argument it could depend on. -/
 theorem C18_function (pol₁ pol₂ : Policy) (prog₁ prog₂ : Prog) (cs₁ cs₂ : List (Call R.Chunk))
